@@ -133,10 +133,10 @@ class Check:
       os.makedirs(rdir, exist_ok=True)
       body = dict(property=self.prop, tier=self.tier, seed=self.seed, sig=sig,
                   message=message, **_jsonable(replay))
-      h = hashlib.sha1(json.dumps(body, sort_keys=True).encode()).hexdigest()[:10]
+      h = hashlib.sha1(json.dumps(body, sort_keys=True, default=repr).encode()).hexdigest()[:10]
       path = os.path.join(rdir, f'{self.prop}_{h}.json')
       with open(path, 'w') as f:
-        json.dump(body, f, indent=1, sort_keys=True)
+        json.dump(body, f, indent=1, sort_keys=True, default=repr)
       v['replay'] = path
       print(f'VIOLATION property={self.prop} replay={path}')
       print(f'  {sig}: {message}'[:600])
@@ -167,7 +167,7 @@ class Check:
     edir = os.environ.get('VERIF_EVIDENCE_DIR') or os.path.join(VERIF, 'evidence')
     os.makedirs(edir, exist_ok=True)
     with open(os.path.join(edir, f'{self.prop}.json'), 'w') as f:
-      json.dump(ev, f, indent=1, sort_keys=True)
+      json.dump(ev, f, indent=1, sort_keys=True, default=repr)
 
   def finish(self):
     for e in self._known:
@@ -191,7 +191,59 @@ class Check:
     sys.exit(1 if n else 0)
 
 
+def _replay_main(prop, body, level, path):
+  """bin/check <ID> --replay <file>: re-executes the recorded failing input.  Queue violations are
+  re-run directly from their recorded schedule; every other kind re-runs the deterministic check at
+  the recorded tier/seed and reports whether the recorded violation class recurs.  Exit 1 = reproduced."""
+  import tempfile
+  with open(path) as f:
+    rec = json.load(f)
+  print(f"REPLAY property={prop} class={rec.get('sig')}\n  recorded: {str(rec.get('message'))[:500]}")
+  if rec.get('kind') == 'queue' and rec.get('schedule') is not None and rec.get('config'):
+    setup_repo_path()
+    from harness import qcheck, qreplay, sched
+    cfg = rec['config']
+    for k in ('prods', 'cons'):
+      cfg[k] = {n: tuple(v) for n, v in cfg[k].items()}
+    if cfg.get('shared'):
+      cfg['shared'] = tuple(cfg['shared'])
+    o = qreplay.run_config(cfg, sched.Scripted(rec['schedule']))
+    verdicts = qcheck.judge(cfg, o)
+    print('  outcome now:', json.dumps(_jsonable(o.summary()), default=repr)[:800])
+    same = _jsonable(o.summary()) == rec.get('outcome')
+    for sg, msg in verdicts:
+      print(f'  verdict now: {sg}: {msg}'[:500])
+    if verdicts or (same and str(rec.get('sig', '')).startswith('outcome-not-allowed')):
+      print(f'VIOLATION property={prop} replay={path}')
+      sys.exit(1)
+    print('NOT-REPRODUCED')
+    sys.exit(0)
+  scratch = tempfile.mkdtemp(prefix='verif_replay_')
+  os.environ['VERIF_EVIDENCE_DIR'] = scratch
+  os.environ['VERIF_REPLAY_DIR'] = scratch
+  os.environ['VERIF_TIER'] = rec.get('tier', 'quick')
+  os.environ['VERIF_SEED'] = str(rec.get('seed', 0))
+  chk = Check(prop, level)
+  chk._known = []      # a replay reports what happens, listed or not
+  try:
+    body(chk)
+  except SystemExit:
+    pass
+  finally:
+    import shutil
+    hit = [v for v in chk.violations if v['sig'] == rec.get('sig')]
+    shutil.rmtree(scratch, ignore_errors=True)
+  if hit:
+    print(f"  reproduced {len(hit)}x: {hit[0]['message'][:500]}")
+    print(f'VIOLATION property={prop} replay={path}')
+    sys.exit(1)
+  print('NOT-REPRODUCED')
+  sys.exit(0)
+
+
 def main(prop: str, body: Callable[[Check], None], level: str = 'model_checking'):
+  if os.environ.get('VERIF_REPLAY'):
+    _replay_main(prop, body, level, os.environ['VERIF_REPLAY'])
   chk = Check(prop, level)
   try:
     body(chk)
